@@ -62,6 +62,29 @@ if [ "$TIER" = thorough ] && [ ${#ARGS[@]} -eq 0 ]; then
       ;;
   esac
 fi
+# Supplementary monitor (thorough tier of C13/C14): a reduced query history over the shared
+# Rc<RefCell<..>> caches runs under Miri, which reports undefined behaviour in the dependency/std
+# unsafe code the iterator plumbing reaches, and leaked Rc cycles.
+if [ "$TIER" = thorough ] && [ ${#ARGS[@]} -eq 0 ] && { [ "$ID" = C13 ] || [ "$ID" = C14 ]; }; then
+  if cargo +nightly miri --version >/dev/null 2>&1; then
+    mlog="$VERIF_DIR/replays/$ID/miri-$VERIF_SEED.log"; mkdir -p "$(dirname "$mlog")"
+    (cd "$H" && MIRIFLAGS="-Zmiri-disable-isolation" CARGO_TARGET_DIR="$H/target/miri-dir" \
+      timeout 900 cargo +nightly miri run --offline --quiet -- "$ID-MIRI" --seed "$VERIF_SEED") >"$mlog" 2>&1; mr=$?
+    if grep -q "miri-lite $ID: .* no violation" "$mlog" && [ $mr -eq 0 ]; then
+      grep "miri-lite" "$mlog"
+    elif [ $mr -eq 124 ]; then
+      echo "NOTE property=$ID Miri run hit its wall-clock cap (no verdict from Miri)"
+    elif grep -q -E "Undefined Behavior|memory leaked|VIOLATION" "$mlog"; then
+      echo "VIOLATION property=$ID replay=$mlog"
+      grep -m3 -E "Undefined Behavior|memory leaked|VIOLATION" "$mlog"
+      rc=1
+    else
+      echo "NOTE property=$ID Miri could not be run here (see $mlog); no verdict from Miri"
+    fi
+  else
+    echo "NOTE property=$ID Miri is not installed; supplementary monitor skipped"
+  fi
+fi
 "$BIN_C" "$ID" --tier "$TIER" --seed "$VERIF_SEED" "${ARGS[@]}"; r=$?
 if [ $r -eq 1 ] || [ $rc -eq 1 ]; then exit 1; fi
 [ $r -gt $rc ] && rc=$r
